@@ -15,6 +15,16 @@ type quotaProviderValidator struct {
 
 func (qr *QuotaResourceData) Validate() error {
 	var errMsg error
+	for _, quota := range qr.Quotas {
+		if quota == nil {
+			return errors.New("validation error: empty entry in quotas")
+		}
+	}
+	for _, internalLimit := range qr.InternalLimits {
+		if internalLimit == nil {
+			return errors.New("validation error: empty entry in internal_limits")
+		}
+	}
 	validate := validator.New()
 	singleQuotaDataList := qr.ToSingleQuotaResourceDataList()
 	for _, singleQuotaData := range singleQuotaDataList {
